@@ -11,8 +11,10 @@ import (
 	"github.com/nspcc-dev/neo-go/pkg/core/transaction"
 	"github.com/nspcc-dev/neo-go/pkg/neorpc/result"
 	"github.com/nspcc-dev/neo-go/pkg/rpcclient/unwrap"
+	"github.com/nspcc-dev/neo-go/pkg/smartcontract/scparser"
 	"github.com/nspcc-dev/neo-go/pkg/smartcontract/trigger"
 	"github.com/nspcc-dev/neo-go/pkg/util"
+	"github.com/nspcc-dev/neo-go/pkg/vm/opcode"
 )
 
 // N3ScriptRunner allows to makes historic N3 script runs on the N3 chain.
@@ -50,7 +52,27 @@ func verifyN3ScriptsAtTime(fsChain HistoricN3ScriptRunner, t time.Time, acc util
 	return verifyN3Scripts(fsChain, height, acc, invocScript, verifScript, hashData())
 }
 
+// checkInvocationScript checks that the script only pushes data. Invocation and
+// verification scripts are run as a single script, so the former must not be
+// able to finish or redirect the execution (e.g. PUSHT RET).
+func checkInvocationScript(script []byte) error {
+	for ctx := scparser.NewContext(script, 0); ctx.NextIP() < len(script); {
+		op, _, err := ctx.Next()
+		if err != nil {
+			return err
+		}
+		if op > opcode.PUSH16 {
+			return fmt.Errorf("non-push instruction %s", op)
+		}
+	}
+	return nil
+}
+
 func verifyN3Scripts(nsr N3ScriptRunner, height uint32, acc util.Uint160, invocScript, verifScript []byte, dataHash [sha256.Size]byte) error {
+	if err := checkInvocationScript(invocScript); err != nil {
+		return fmt.Errorf("invalid invocation script: %w", err)
+	}
+
 	fullScript := slices.Concat(invocScript, verifScript)
 	signer := transaction.Signer{
 		Account: acc,
